@@ -184,6 +184,23 @@ pub trait PoolOps {
     fn raw_blind(&mut self) -> Option<&mut RawBlindPool> {
         None
     }
+    /// Raw opaque / blind pools: inserts a value of a plain-data type (no destructor) with the layout of menu type
+    /// `lay` and removes it again. Says whether it did.
+    fn plain_touch(&mut self, _lay: u8) -> bool {
+        false
+    }
+}
+
+fn touch_raw_opaque<T: Pay>(p: &mut RawOpaquePool) {
+    let h = p.insert(MaybeUninit::<T>::uninit());
+    // SAFETY: the handle was just returned by this pool and is used once.
+    unsafe { p.remove(h) };
+}
+
+fn touch_raw_blind<T: Pay>(p: &mut RawBlindPool) {
+    let h = p.insert(MaybeUninit::<T>::uninit());
+    // SAFETY: the handle was just returned by this pool and is used once.
+    unsafe { p.remove(h) };
 }
 
 fn seen<O: Obj + ?Sized>(r: &O, id: u32, ver: u32) -> Seen {
@@ -916,6 +933,11 @@ impl PoolOps for RawOpaqueP {
     fn raw(&mut self) -> Option<&mut dyn RawRemove> {
         Some(&mut self.0)
     }
+    fn plain_touch(&mut self, lay: u8) -> bool {
+        let p = &mut self.0;
+        dispatch!(lay, touch_raw_opaque, p);
+        true
+    }
 }
 
 macro_rules! rc_opaque_pool {
@@ -1085,6 +1107,15 @@ macro_rules! blind_pool {
             fn raw_blind(&mut self) -> Option<&mut RawBlindPool> {
                 let f: fn(&mut $P) -> Option<&mut RawBlindPool> = $rawblind;
                 f(self)
+            }
+            fn plain_touch(&mut self, lay: u8) -> bool {
+                match self.raw_blind() {
+                    Some(p) => {
+                        dispatch!(lay, touch_raw_blind, p);
+                        true
+                    }
+                    None => false,
+                }
             }
         }
     };
